@@ -14,6 +14,11 @@ def _ops(P, e):
     """yield (tid, k, pc, name, args, result) for the O lines of one execution, in order; the special
     lines `O tid k end`, `O tid k drop <oi>`, `O tid k dtor <t>` … are yielded with pc=None"""
     for l in e["lines"]:
+        if l == "P panic":
+            # a panic started (also one raised inside the runtime, e.g. the re-entrancy diagnosis, which logs no
+            # `panicking` line of its own): from here on releases take the "panicking" branch
+            yield -1, -1, None, "panicking", [], ""
+            continue
         if not l.startswith("O "):
             continue
         t = l.split()
